@@ -73,6 +73,12 @@ func vPosNode(tag string) *posNav {
 		vAssume(len(nm) >= 1)
 		vAssume(vOr(nm[0] == 'a', nm[0] == 'b'))
 		n.name = nm
+	case TextNode, CommentNode:
+		// navigators in the field report a text or comment node's data as its local
+		// name (or nothing): either is allowed
+		if vBool(tag + "dataname") {
+			n.name = vStr(tag+"name", 1, "set:ab-1")
+		}
 	}
 	if n.kind != ElementNode {
 		n.value = vStr(tag+"val", 1, "set:a=-1")
